@@ -264,6 +264,31 @@ func runC16(c *Ctx) {
 				return ok && callName(cl) == "builtin.delete" && loadedFromField(cl.Call.Args[0], "Hub", "connections")
 			}}
 		hit2, path2 := q2.fromEntry()
+		// a connection that was just received from the register channel and is refused (the limit is reached) was
+		// never put into the table or into a room: closing its send channel needs no unlink - provided no insert
+		// of this iteration precedes the close
+		if (hit != nil || hit2 != nil) && freshFromRegister(ins) {
+			clean := true
+			eachInstr(fn, func(_ *ssa.BasicBlock, _ int, x ssa.Instruction) {
+				mu, ok := x.(*ssa.MapUpdate)
+				if !ok || !loadedFromField(mu.Map, "Hub", "connections") {
+					return
+				}
+				q3 := &pathQuery{fn: fn, target: func(y ssa.Instruction) bool { return y == ins }, stop: func(y ssa.Instruction) bool {
+					if _, isSel := y.(*ssa.Select); isSel {
+						return true // the next iteration receives another connection
+					}
+					cl, ok := y.(*ssa.Call)
+					return ok && callName(cl) == "builtin.delete" && loadedFromField(cl.Call.Args[0], "Hub", "connections")
+				}}
+				if h, _ := q3.after(x); h != nil {
+					clean = false
+				}
+			})
+			if clean {
+				return true, nil, true, nil
+			}
+		}
 		return hit == nil, path, hit2 == nil, path2
 	}
 	for len(pending) > 0 {
@@ -559,6 +584,72 @@ func assertGuarded(ta *ssa.TypeAssert) bool {
 }
 
 func c16Extra(c *Ctx) {
+	// a connection handed to the hub ends up registered, or finished: the pumps are started for it either way
+	if run := c.fn(wsPkg, "Hub.Run"); run != nil {
+		k := 0
+		eachInstr(run, func(_ *ssa.BasicBlock, _ int, ins ssa.Instruction) {
+			ex, ok := ins.(*ssa.Extract)
+			if !ok {
+				return
+			}
+			// the value received in the register case
+			isReg := false
+			if sel, ok := ex.Tuple.(*ssa.Select); ok && ex.Index >= 2 {
+				j := 0
+				for _, st := range sel.States {
+					if st.Dir != types.RecvOnly {
+						continue
+					}
+					if 2+j == ex.Index {
+						if u, ok := st.Chan.(*ssa.UnOp); ok {
+							if nt, f, ok := fieldOf(u.X); ok && nt != nil && nt.Obj().Name() == "Hub" && f == "register" {
+								isReg = true
+							}
+						}
+					}
+					j++
+				}
+			}
+			if !isReg {
+				return
+			}
+			k++
+			closes := func(x ssa.Instruction) bool {
+				cl, ok := x.(*ssa.Call)
+				if !ok {
+					return false
+				}
+				sf := staticFn(cl)
+				if sf == nil || sf.Pkg == nil || sf.Pkg.Pkg.Path() != wsPath {
+					return false
+				}
+				isClose := func(y ssa.Instruction) bool {
+					c2, ok := y.(*ssa.Call)
+					return ok && callName(c2) == "builtin.close" && chanFromField(c2.Call.Args[0], "Connection", "send")
+				}
+				for _, g := range withAnon(sf) { // the close may sit in the function handed to sync.Once.Do
+					if reachesInstr(g, isClose, 0, map[*ssa.Function]bool{}) {
+						return true
+					}
+				}
+				return false
+			}
+			q := &pathQuery{fn: run, target: func(x ssa.Instruction) bool {
+				if _, isSel := x.(*ssa.Select); isSel {
+					return true
+				}
+				return isReturn(x)
+			}, stop: func(x ssa.Instruction) bool {
+				if mu, ok := x.(*ssa.MapUpdate); ok && loadedFromField(mu.Map, "Hub", "connections") {
+					return true
+				}
+				return closes(x)
+			}}
+			hit, path := q.after(ins)
+			c.ob("C16-R2", fnKey(run)+"#refused-connection-is-finished-"+itoa(k), ins.Pos(), hit == nil, "a connection received for registration can be dropped (the limit is reached) without being registered and without its send channel being closed: its pumps have been started all the same, its unregister is ignored because it was never registered, so the write pump waits on the send channel for ever and Server.Shutdown waits for the pump", c.blockPath(path)...)
+		})
+	}
+
 	c.rule("C16-R10", "ATOM: a connection's membership has two views - the room's table (Room.connections) and its own (Connection.rooms) - and a tear-down that must leave it in no room. They agree under every interleaving only if each change of membership is one critical section of the connection: (a) every function of Connection that changes both views (calls the room-side add/remove and updates Connection.rooms) holds one mutex of the connection across both steps; (b) the hub's tear-down removes the connection from its rooms under that same mutex and marks the connection as gone there, and (c) the joining function tests that mark under the mutex before it adds - otherwise a join that the loop handles after the unregister (both are queued, select picks at random) puts a connection whose send channel is closed back into a room, and the next room broadcast panics on the hub goroutine")
 	{
 		type memberFn struct {
@@ -905,4 +996,40 @@ func c16Extra(c *Ctx) {
 	if nPump < 1 {
 		c.undecided("C16-R8: no `go conn.ReadPump()` found")
 	}
+}
+
+// freshFromRegister: the connection closed by this call was received from Hub.register in the select this function
+// runs (the hub loop's register case).
+func freshFromRegister(ins ssa.Instruction) bool {
+	cl, ok := ins.(*ssa.Call)
+	if !ok || len(cl.Call.Args) == 0 {
+		return false
+	}
+	return derivesFrom(cl.Call.Args[0], func(v ssa.Value) bool {
+		ex, ok := v.(*ssa.Extract)
+		if !ok {
+			return false
+		}
+		sel, ok := ex.Tuple.(*ssa.Select)
+		if !ok || ex.Index < 2 {
+			return false
+		}
+		// Extract index 2+k is the value received by the k-th receive state
+		k := 0
+		for _, st := range sel.States {
+			if st.Dir != types.RecvOnly {
+				continue
+			}
+			if 2+k == ex.Index {
+				if u, ok := st.Chan.(*ssa.UnOp); ok {
+					if nt, f, ok := fieldOf(u.X); ok && nt != nil && nt.Obj().Name() == "Hub" && f == "register" {
+						return true
+					}
+				}
+				return false
+			}
+			k++
+		}
+		return false
+	})
 }
